@@ -439,6 +439,9 @@ type (
 var CtxKey = &CtxKeyName{}
 
 func CtxToEv(ctx context.Context) *Event {
+	if ctx == nil {
+		return nil
+	}
 	v, _ := ctx.Value(CtxKey).(CtxValue)
 	return v.Event
 }
@@ -448,6 +451,9 @@ func CtxToEv(ctx context.Context) *Event {
 func EvToCtx(ctx context.Context, e *Event) context.Context {
 	if e == nil {
 		return ctx
+	}
+	if ctx == nil {
+		ctx = context.Background()
 	}
 
 	v, _ := ctx.Value(CtxKey).(CtxValue)
